@@ -463,8 +463,10 @@ Section GlobWalk.
 Variable prefix : rpath.
 Variable progs : list (name -> bool).
 Variable complete : str -> bool.
+(* the paths the hypothesis is needed for (e.g. those made of valid names; `fun _ => True` for all) *)
+Variable good : rpath -> Prop.
 (* pruning soundness: whatever the complete program accepts, every component program accepts at its own position *)
-Hypothesis Hprune : forall rel, complete (join_path rel) = true ->
+Hypothesis Hprune : forall rel, good rel -> complete (join_path rel) = true ->
   forall i c pr, nth_error rel i = Some c -> nth_error progs i = Some pr -> pr c = true.
 
 Definition gl : layer := glob_layer prefix progs complete.
@@ -498,13 +500,13 @@ Lemma nth_error_skipn : forall {A} (l : list A) d i, nth_error (skipn d l) i = n
 Proof. induction l as [|a l IH]; intros [|d] i; cbn; try reflexivity; [destruct i; reflexivity|apply IH]. Qed.
 
 (* a discarded directory and everything beneath it are rejected by the complete program *)
-Lemma tree_verdict_rejects_subtree : forall e t r,
+Lemma tree_verdict_rejects_subtree : forall e t r, good (prefix ++ (e_path e ++ r)) ->
   gl e t = VTree -> complete (join_path (prefix ++ (e_path e ++ r))) = false.
 Proof.
-  intros e t r H. unfold gl, glob_layer in H. apply zip_loop_tree in H. destruct H as [i [c [pr [Hc [Hp Hr]]]]].
+  intros e t r Hg H. unfold gl, glob_layer in H. apply zip_loop_tree in H. destruct H as [i [c [pr [Hc [Hp Hr]]]]].
   rewrite nth_error_skipn in Hc. rewrite nth_error_skipn in Hp.
   destruct (complete (join_path (prefix ++ e_path e ++ r))) eqn:E; [|reflexivity].
-  rewrite (Hprune _ E (Nat.pred (length (e_path e)) + i) c pr) in Hr; [discriminate| |exact Hp].
+  rewrite (Hprune _ Hg E (Nat.pred (length (e_path e)) + i) c pr) in Hr; [discriminate| |exact Hp].
   rewrite app_assoc. rewrite nth_error_app1; [exact Hc|]. apply nth_error_Some. rewrite Hc. discriminate.
 Qed.
 
@@ -531,8 +533,8 @@ Proof.
   - rewrite !skipn_length in Ev. apply andb_false_iff. right. apply Nat.leb_gt. rewrite app_length in *. lia.
 Qed.
 
-Lemma verdict_tree : forall e t r, gl e t = VTree -> keeps (e_path e ++ r) = false.
-Proof. intros e t r Ev. unfold keeps. rewrite (tree_verdict_rejects_subtree e t r Ev). reflexivity. Qed.
+Lemma verdict_tree : forall e t r, good (prefix ++ (e_path e ++ r)) -> gl e t = VTree -> keeps (e_path e ++ r) = false.
+Proof. intros e t r Hg Ev. unfold keeps. rewrite (tree_verdict_rejects_subtree e t r Hg Ev). reflexivity. Qed.
 
 Lemma yields_shown : forall d e,
   yields (shown [gl] 0 d e) = filter keeps [e_path e] \/ (gl e Filtrate = VTree /\ yields (shown [gl] 0 d e) = []).
@@ -547,19 +549,28 @@ Qed.
 (* C02: the walk of a glob yields exactly the entries that the complete program matches (and that have at least as many
    components as there are component programs), each once, in pre-order; pruning never loses one *)
 Theorem glob_walk_yields : forall n d p,
+  (forall q, In q (all_entries p n) -> good (prefix ++ q)) ->
   yields (spec [gl] 0 None d p n) = filter keeps (all_entries p n).
 Proof.
-  induction n as [|kids IH| |] using node_ind'; intros d p.
+  assert (Hself : forall (e : entry) r, good (prefix ++ e_path e ++ r) -> gl e Filtrate = VTree -> keeps (e_path e ++ r) = false).
+  { intros e r Hg Ev. exact (verdict_tree e Filtrate r Hg Ev). }
+  induction n as [|kids IH| |] using node_ind'; intros d p Hgood.
   - cbn [spec all_entries]. destruct (yields_shown d (mkEntry p false)) as [H|[Ev H]]; rewrite H; [reflexivity|].
-    cbn [filter]. pose proof (verdict_tree _ Filtrate [] Ev) as Hk. cbn [e_path] in Hk. rewrite app_nil_r in Hk. rewrite Hk. reflexivity.
+    cbn [filter]. assert (Hg : good (prefix ++ e_path (mkEntry p false) ++ [])) by (cbn [e_path]; rewrite app_nil_r; apply Hgood; left; reflexivity).
+    pose proof (Hself _ [] Hg Ev) as Hk. cbn [e_path] in Hk. rewrite app_nil_r in Hk. rewrite Hk. reflexivity.
   - cbn [spec all_entries]. rewrite yields_app.
     set (e := mkEntry p true).
     set (rest := (fix go (ks : list (name * node)) : list rpath :=
                     match ks with [] => [] | k :: ks' => all_entries (p ++ [fst k]) (snd k) ++ go ks' end) kids).
+    assert (Hgood' : forall q, In q (p :: rest) -> good (prefix ++ q)) by exact Hgood.
     assert (Hkids : yields ((fix go (ks : list (name * node)) : list ritem :=
                        match ks with [] => [] | k :: ks' => spec [gl] 0 None (S d) (p ++ [fst k]) (snd k) ++ go ks' end) kids)
                     = filter keeps rest).
-    { subst rest. induction IH as [|k ks Hk _ IHks]; [reflexivity|]. rewrite yields_app, filter_app, Hk, IHks. reflexivity. }
+    { assert (Hr : forall q, In q rest -> good (prefix ++ q)) by (intros q Hq; apply Hgood'; right; exact Hq).
+      clear Hgood Hgood'. subst rest. induction IH as [|k ks Hk _ IHks]; [reflexivity|]. rewrite yields_app, filter_app, Hk, IHks; [reflexivity| |].
+      - intros q Hq. apply Hr. apply in_or_app. right. exact Hq.
+      - intros q Hq. apply Hr. apply in_or_app. left. exact Hq. }
+    assert (Hsub : forall r, In (p ++ r) (p :: rest) -> good (prefix ++ e_path e ++ r)) by (intros r Hr; apply Hgood'; exact Hr).
     unfold pruned. cbn [Nat.ltb Nat.leb negb andb over orb]. rewrite final_tag_single.
     destruct (yields_shown d e) as [H|[Ev H]].
     + rewrite H. destruct (gl e Filtrate) eqn:Ev; cbn [step_layer fst orb].
@@ -568,16 +579,18 @@ Proof.
       * (* a tree verdict: nothing at or beneath the directory is kept *)
         assert (Hall : filter keeps (p :: rest) = []).
         { apply filter_all_false. intros q Hq. destruct (all_entries_extend (NDir kids) p q Hq) as [r ->].
-          apply (verdict_tree e Filtrate r Ev). }
+          apply (Hself e r (Hsub r Hq) Ev). }
         rewrite Hall. assert (Hp : filter keeps [e_path e] = []).
-        { apply filter_all_false. intros q [<-|[]]. pose proof (verdict_tree e Filtrate [] Ev) as Hk. rewrite app_nil_r in Hk. exact Hk. }
+        { apply filter_all_false. intros q [<-|[]]. assert (Hin : In (p ++ []) (p :: rest)) by (rewrite app_nil_r; left; reflexivity).
+          pose proof (Hself e [] (Hsub [] Hin) Ev) as Hk. rewrite app_nil_r in Hk. exact Hk. }
         rewrite Hp. reflexivity.
     + rewrite H, Ev. cbn [step_layer fst app orb]. unfold yields. cbn [flat_map]. symmetry. apply filter_all_false. intros q Hq.
-      destruct (all_entries_extend (NDir kids) p q Hq) as [r ->]. apply (verdict_tree e Filtrate r Ev).
+      destruct (all_entries_extend (NDir kids) p q Hq) as [r ->]. apply (Hself e r (Hsub r Hq) Ev).
   - cbn [spec all_entries]. rewrite yields_app.
     assert (Herr : forall b : bool, yields (if b then [] else [RError p d]) = []) by (intros []; reflexivity). rewrite Herr, app_nil_r.
     destruct (yields_shown d (mkEntry p true)) as [H|[Ev H]]; rewrite H; [reflexivity|].
-    cbn [filter]. pose proof (verdict_tree _ Filtrate [] Ev) as Hk. cbn [e_path] in Hk. rewrite app_nil_r in Hk. rewrite Hk. reflexivity.
+    cbn [filter]. assert (Hg : good (prefix ++ e_path (mkEntry p true) ++ [])) by (cbn [e_path]; rewrite app_nil_r; apply Hgood; left; reflexivity).
+    pose proof (Hself _ [] Hg Ev) as Hk. cbn [e_path] in Hk. rewrite app_nil_r in Hk. rewrite Hk. reflexivity.
   - reflexivity.
 Qed.
 
